@@ -53,8 +53,8 @@ class DbDotDot:
 
 TARGETS = {
     "codebasin.finder:ParserState._get_realpath": SysTarget("aliases", ("links", "aliases", "multi"), quick_n=150, thorough_n=3000),
-    "codebasin.finder:ParserState.get_setmap": C06.Reports("reports", ("links", "aliases"), quick_n=100, thorough_n=2000),
-    "codebasin.report:FileTree.insert": C06.TreeReport("tree", ("links", "aliases"), quick_n=100, thorough_n=2000),
+    "codebasin.finder:ParserState.get_setmap": C06.Reports("reports", ("links", "aliases", "exclude", "outside"), quick_n=150, thorough_n=2000),
+    "codebasin.report:FileTree.insert": C06.TreeReport("tree", ("links", "aliases", "exclude", "multi"), quick_n=150, thorough_n=2000),
     "codebasin.coverage.__main__:_compute": C06.Coverage("coverage", ("links",), quick_n=6, thorough_n=100),
     "codebasin.config:load_database": DbDotDot(),
 }
